@@ -592,6 +592,13 @@ func TestC08(t *testing.T) {
 				for _, ni := range s.neverIssued() {
 					s.replay("never_issued", sse.ID(ni), sub, 0, 0)
 				}
+				// faults deep inside a long replay: the k-th Send, the first Flush (an implementation
+				// that flushes in between must not lose that error)
+				if nn-lo > 10 {
+					all := []string{"a", "b", ""}
+					s.replay("oldest", sse.ID(s.m.Entries[lo].ID), all, 1+rng.IntN(nn-lo-1), 0)
+					s.replay("oldest", sse.ID(s.m.Entries[lo].ID), all, 0, 1)
+				}
 			}
 		}
 		s.hist.Ops = []string{fmt.Sprintf("(%d puts into capacity %d; op list omitted)", nputs, capN)}
